@@ -372,7 +372,11 @@ LIST_WITNESSES = [w('local aaaa, bbbb, cccc = ffff(1111, 2222), gggg(3333), hhhh
                   w('for kkkk, vvvv in pairs(tttt), nil, nil do end\nlocal t = { aaaa = 1, [2] = bbbb, cccc, dddd = { eeee, ffff }; gggg }\nlocal u = {\n  1, 2;\n  3 }\n', oracle="tree", sweep=(10, 120))]
 RETURN_WITNESSES = [w('local function f()\n  return -- c\n    aaaa(1111), bbbb + cccc * dddd, eeee\nend\nlocal function g() return function() end, { 1, 2 } end\nlocal function h()\n  return aaaa and bbbb or cccc, -- d\n    dddd\nend\nreturn\n', oracle="tree", sweep=(10, 120)),
                     w('return aaaa(1111), bbbb + cccc * dddd, { eeee = ffff }, function() return 1 end\n', oracle="tree", sweep=(10, 120))]
+# D42: `//` exists in full_moon under luau or lua53; the trivia impls of BinOp listed it under lua53 only
+FEATURE_SET_WITNESSES = [dict(kind="featbin", features="luau", src="local x = aaaaaaaaaaaaaaaaaaaaaaaaaaaaaaaaaaaaaaaaaaaaaaaaaa // bbbbbbbbbbbbbbbbbbbbbbbbbbbbbbbbbbbbbbbbbbbbbbbbbbbbbbbbbbbbbbbbbbbbbbbbbbbbbb // cccccccccccccccccccccccccccc -- c\nlocal y = a //\n -- d\n b\nlocal z = #t // 2 + -n // m\n")]
 WITNESSES = {
+    "C03.update_trivia_contract": FEATURE_SET_WITNESSES + C10_WITNESSES[:2], "C03.update_leading": C10_WITNESSES[:2], "C03.update_trailing": C10_WITNESSES[:2], "C03.token_": C10_WITNESSES[:2],
+    "C03.span_proxy": C10_WITNESSES[:2], "C03.binop_proxy": FEATURE_SET_WITNESSES, "C03.list_update_loop": LIST_WITNESSES[:1],
     "C02.list_": LIST_WITNESSES, "C02.assignment": LIST_WITNESSES, "C02.local_assignment": LIST_WITNESSES, "C02.return_": RETURN_WITNESSES,
     "C02.table_": LIST_WITNESSES[1:] + TABLE_COMMENT_WITNESSES, "C08.table_": LIST_WITNESSES[1:] + BLOCK_WITNESSES, "C02.function_name": LIST_WITNESSES[:1], "C02.argument_multiline": LIST_WITNESSES[:1],
     "C03.condition": COND_COMMENT_WITNESSES, "C02.condition": COND_COMMENT_WITNESSES,
@@ -434,6 +438,6 @@ NOT_APPLICABLE = {
 }
 
 # witnesses for unlabelled failures inside a function (failed proof step / precondition): by function name
-FN_WITNESSES = {"load": [cli("option_carriers")], "load_overrides": [cli("config_search"), cli("option_carriers")], "format_file": [cli("write_only_formatted_text"), cli("check_never_writes")],
+FN_WITNESSES = {"update_trivia": FEATURE_SET_WITNESSES, "load": [cli("option_carriers")], "load_overrides": [cli("config_search"), cli("option_carriers")], "format_file": [cli("write_only_formatted_text"), cli("check_never_writes")],
                 "format_string": [cli("stdin_stdout_only")], "create_diff": [cli("check_never_writes")], "output_diff_json": [cli("json_diff_reconstructs")],
                 "load_configuration": [cli("config_search")], "find_config_file": [cli("config_search")]}
